@@ -114,7 +114,8 @@ def run(ctx):
             # lock handles only (no state method): compared for guard construction in C04/R04.2
             continue
         n += 1
-        a, s = skeleton(F, af), skeleton(F, sf)
+        # compared as multisets: the order of independent events (read the value / mark as observed under one guard) is not an effect
+        a, s = sorted(skeleton(F, af)), sorted(skeleton(F, sf))
         if a == s:
             ctx.holds("R16.1", af, "sibling:%s" % af.name, af.loc(), "same effect skeleton as `%s`: %s" % (sf.path, a))
         else:
